@@ -843,7 +843,48 @@ func c10SpecInvalid(sp *quic.QUICSpec, maxPacket int) string {
 			return "size-max/plan"
 		}
 	}
+	// the largest header this spec can produce (library-chosen DCID: up to 20 bytes; the
+	// longest configured packet-number length; the synthesised token -- an explicit store's
+	// token is not known before the dial)
+	hdr := c10MaxHeader(sp)
+	if hdr+16+4 > maxPacket {
+		return "token-no-room" // not a single CRYPTO byte fits: nothing can ever be sent
+	}
+	for _, pl := range ips.InitialPackets {
+		limit := maxPacket
+		if pl.PacketSize > 0 && pl.PacketSize < limit {
+			limit = pl.PacketSize
+		}
+		// a pinned split that a packet cannot hold (offset varint up to 4 bytes)
+		if cl := pl.CryptoLength; cl > 0 && hdr+1+4+len(c10AppendVarint(nil, uint64(cl)))+cl >= limit-16 {
+			return "crypto-split/no-room"
+		}
+	}
 	return ""
+}
+
+// c10MaxHeader: the longest Initial header the spec can produce.
+func c10MaxHeader(sp *quic.QUICSpec) int {
+	ips := &sp.InitialPacketSpec
+	d := ips.DestConnIDLength
+	if d == 0 {
+		d = 20
+	}
+	pl := int(ips.InitPacketNumberLength)
+	if pl == 0 {
+		pl = 4
+	}
+	if len(ips.InitPacketNumberLengths) > 0 {
+		pl = 1
+		for _, l := range ips.InitPacketNumberLengths {
+			pl = max(pl, int(l))
+		}
+	}
+	tl := 0
+	if ips.TokenStore == nil {
+		tl = max(ips.ClientTokenLength, len(ips.ClientTokenPrefix))
+	}
+	return 1 + 4 + 1 + d + 1 + ips.SrcConnIDLength + pl + 2 + len(c10AppendVarint(nil, uint64(tl))) + tl
 }
 
 // c10Rejected: the dial refused the spec before sending anything.
@@ -961,7 +1002,7 @@ func c10DialSrv(sp *quic.QUICSpec, conf *quic.Config, srvConf *quic.Config, blac
 // inputs cannot be read off the wire for are skipped (false).
 func c10WireFlightCase(w *bufio.Writer, sp *quic.QUICSpec, e *c10Expect, dgs [][]byte, pkts []*c10Pkt) bool {
 	ips := &sp.InitialPacketSpec
-	if len(pkts) == 0 || len(pkts) != len(dgs) || len(dgs) >= 10 {
+	if len(pkts) == 0 || len(pkts) != len(dgs) {
 		return false
 	}
 	bk := ""
